@@ -1,6 +1,7 @@
 """C12: spinlocks exclude, hand over in order, and lock guards stay balanced."""
 import sys
 import vlib
+from comp.cxxleaf import check as cxxleaf
 from comp.locks import check as locks
 
 def main():
@@ -10,7 +11,9 @@ def main():
     c.assumptions = locks.ASSUMPTIONS
     c.kind_filter = lambda k: k not in vlib.LIFETIME_KINDS
     locks.gen_spin_orders(c)      # coq/Gen/SpinOrders.v from the current spinlock.hpp, before the proof leg uses it
-    c.prove(["C12"])
+    cxxleaf.run(c, ["locks"])      # leaf functions re-translated from the current source (translator tie)
+    c.trusted = c.trusted + cxxleaf.TRUSTED
+    c.prove(["C12"] + cxxleaf.prop_ids(["locks"]))
     locks.run(c)
     if c.tier == "thorough" and not c.replay:
         locks.coqchk(c, "FV.Props.Properties_C12")
